@@ -10,7 +10,7 @@ LEVEL = 'proof'
 RULE = ('generated projects (libraries of all kinds, executables using them, per-target and global options with adversarial '
         'argument strings, yacc sources translated by steps of MIXED shapes - default two outputs, two named outputs, one named output, in '
         'drawn order - with options of their own (stand-in tool harness/stubs/yacc), header files produced by steps and passed through '
-        'includes=, one of them at the TOP of the build directory (include directory = the build directory itself), '
+        'includes=, one of them at the TOP of the build directory (include directory = the build directory itself), static libraries with forwarded link_options= and several consumers each, include / library directories and string+path words whose names contain # $ blank @ + { ^ (global and per target; source directory named with # and $; such words also in the W tie of the flag lines), copies and links between directories in near-prefix families (data / data2), '
         'command() with environment, multi-output build_step, copy_file, alias, default) under generated configure '
         'options (library mode, prefix, CFLAGS/LDFLAGS/CPPFLAGS/LDLIBS from the environment), plain and odd file names; a case = one '
         'step of one project compared across backends; non-trivial when its argv contains a character outside [A-Za-z0-9_./=-]. '
@@ -102,6 +102,21 @@ def make_rules(text):
     return rules
 
 
+COPY_TOOLS = {'CP': shtools.ARGVREC + ' cp -f', 'SYMLINK': shtools.ARGVREC + ' ln -sf', 'HARDLINK': shtools.ARGVREC + ' ln -f'}
+# names of the source directory itself: '#' and '$' are written into `srcdir := ...` / `srcdir = ...` (a blank there is the open
+# finding C04-make-srcdir-location-special)
+SRCDIR_NAMES = ['src', 's#rc', 'sr$c', 's#r$c#']
+
+
+def special_srcdir(s, idx):
+    """move the (still empty) source directory of a Scratch to a name drawn from SRCDIR_NAMES"""
+    name = SRCDIR_NAMES[idx % len(SRCDIR_NAMES)]
+    if name != 'src':
+        new = os.path.join(s.root, name)
+        os.rename(s.src, new)
+        s.src = new
+
+
 def one_project(rep, rng, idx, odd_names):
     p = projgen.generate(rng, rep, odd_names=odd_names)
     conf_env = {}
@@ -116,9 +131,10 @@ def one_project(rep, rng, idx, odd_names):
     conf_args = rng.choice([[], ['--disable-shared', '--enable-static'], ['--enable-shared', '--disable-static'], ['--prefix=/opt/my app']])
     # the file-copying tools are configured as `recorder cp -f` etc., so that their steps are recorded like the compiler's
     # by all three emitters (compile_commands.json then lists the recorder as the tool of the entry)
-    conf_env.update({'CP': shtools.ARGVREC + ' cp -f', 'SYMLINK': shtools.ARGVREC + ' ln -sf', 'HARDLINK': shtools.ARGVREC + ' ln -f'})
+    conf_env.update(COPY_TOOLS)
     bad = 0
     with project.Scratch('c06') as s:
+        special_srcdir(s, idx)
         project.write_tree(s.src, p.tree())
         bm, bn = s.build + '_make', s.build + '_ninja'
         rc1, out1 = project.configure(s.src, bm, 'make', conf_args, conf_env)
@@ -134,6 +150,7 @@ def one_project(rep, rng, idx, odd_names):
             return 0
         subs_m = [(bm, '$B'), (s.src, '$S')]
         subs_n = [(bn, '$B'), (s.src, '$S')]
+        sym_explains = lambda make_argv, declared_argv: symlink_explains(make_argv, declared_argv, subs_m)
         envnames = tuple('V%d' % i for i in range(4)) + ('TV',)
         ntext = project.read(bn, 'build.ninja')
         m, nrecs = ninja_records(bn, ntext, subs_n, envnames)
@@ -164,17 +181,19 @@ def one_project(rep, rng, idx, odd_names):
             # explained by the finding: every process only Make starts is a process only Ninja starts (same directory and
             # environment) whose per-target option words arrive the way the finding predicts, one to one
             left = [k for k in (nk - mk).elements()]
-            semi = True
+            semi, used = True, []
             for k in (mk - nk).elements():
-                hit = [x for x in left if k[0] != 'FAILED' and x[0] != 'FAILED' and x[1:] == k[1:] and semicolon_explains(k[0], x[0])]
+                hit = [(x, c) for x in left if k[0] != 'FAILED' and x[0] != 'FAILED' and x[1:] == k[1:]
+                       for c, f in (('target-flag-semicolon', semicolon_explains), ('make-symlink-input-double-quoted', sym_explains)) if f(k[0], x[0])]
                 if hit:
-                    left.remove(hit[0])
+                    left.remove(hit[0][0])
+                    used.append(hit[0][1])
                 else:
                     semi = False
             semi = semi and not left
             bad += rep.fail('Make and Ninja start different processes: only make %r ; only ninja %r' % (only_m, only_n),
                             {'script': p.script(), 'conf_args': conf_args, 'conf_env': conf_env, 'only_make': only_m, 'only_ninja': only_n,
-                             'files': sorted(p.files)}, classes=('target-flag-semicolon',) if semi and diff_recs else ())
+                             'files': sorted(p.files)}, classes=tuple(sorted(set(used))) if semi and diff_recs else ())
         # compile_commands.json (written by both configures; compare with what make really ran)
         for bdir, subs in ((bm, subs_m), (bn, subs_n)):
             db = project.compdb(bdir)
@@ -191,7 +210,8 @@ def one_project(rep, rng, idx, odd_names):
                     near = [h for h in have if h and h[-1] == args[-1]][:1]
                     bad += rep.fail('compile_commands.json entry differs from the command Make runs: %r vs %r' % (args, near),
                                     {'script': p.script(), 'entry': e, 'make_argv_same_output': near, 'conf_env': conf_env},
-                                    classes=('target-flag-semicolon',) if any(semicolon_explains(h, args) for h in have) else ())
+                                    classes=('target-flag-semicolon',) if any(semicolon_explains(h, args) for h in have) else
+                                    ('make-symlink-input-double-quoted',) if any(sym_explains(h, args) for h in have) else ())
                 if canon(e['directory'], subs) != '$B':
                     bad += rep.fail('compile_commands.json directory %r is not the build directory' % e['directory'], {'entry': e})
         # same buildable targets and (plain names) same dependency relation
@@ -250,6 +270,30 @@ def stage_flags_model(rep, rng, n):
         impl.append(w.stream.getvalue()[len('  cflags = '):-1])
         calls.append(('ninja.write_each', [uw, [[[0, '${global_cflags}']]] + [[[2, x]] for x in t], 2]))
         rep.case('flags:%r:%r' % (g, t), True)
+        # the same Make line with words that are NOT plain strings: a path (include / library directory) and a word joined from a
+        # string and a path, their components rich in '#', '$' and blanks
+        from bfg9000.path import Path, Root
+        from bfg9000.safe_str import jbos, literal
+        w = mk.writer(StringIO())
+        t_enc, t_py = [[[2, x]] for x in t], list(t)
+        for _ in range(rng.randint(1, 2)):
+            comps = [projgen.flag_dir(rng, rng.choice(['inc', 'lib', 'dd'])) for _ in range(rng.randint(1, 2))]
+            pth = Path('/'.join(comps), rng.choice([Root.srcdir, Root.builddir]))
+            real = pth.realize(w.path_vars, True)
+            bits = []
+            for b in (real.bits if isinstance(real, jbos) else [real]):
+                b = b.use() if isinstance(b, ms.Variable) else b
+                bits.append([isinstance(b, literal), b.string if isinstance(b, literal) else b])
+            k = rng.randint(0, len(t_py))
+            if rng.random() < 0.5:
+                t_enc.insert(k, [[3, bits]]); t_py.insert(k, pth)
+            else:
+                flag = rng.choice(['-I', '-L', '-DP=', '-DQ#='])
+                t_enc.insert(k, [[2, flag], [3, bits]]); t_py.insert(k, jbos(flag, pth))
+        mk._write_variable(w, ms.var('CFLAGS'), [gv] + t_py)
+        impl.append(w.stream.getvalue()[len('CFLAGS := '):-1])
+        calls.append(('make.write_value', [uw, us, [[[0, '$(GLOBAL_CFLAGS)']]] + t_enc, 3]))
+        rep.case('flags-typed:%r:%r' % (g, t_enc), True)
     return common.compare_model(rep, 'W:flag variables (make+ninja)', calls, impl, lambda n_, r: common.d_opt(common.d_str, r))
 
 
@@ -428,8 +472,10 @@ def declared_vs_delivered(rep, rng, idx, backend, odd_names=False):
     p = projgen.generate(rng, rep, odd_names=odd_names)
     bad = 0
     with project.Scratch('sys' + backend) as s:
+        special_srcdir(s, idx)
         project.write_tree(s.src, p.tree())
-        rc, out = project.configure(s.src, s.build, backend)
+        # the file-copying tools are the recorder (`recorder ln -sf` ...): what each of them is handed is recorded too
+        rc, out = project.configure(s.src, s.build, backend, extra_env=COPY_TOOLS)
         if rc != 0:
             rep.count('system:configure_failed')
             rep.sample({'configure_failed': out[-300:], 'script': p.script()})
@@ -445,6 +491,9 @@ def declared_vs_delivered(rep, rng, idx, backend, odd_names=False):
                     targets.append(st['outputs'][0])
             if any(st['kind'] in ('test', 'test_driver') for st in p.steps):
                 targets.append('test')
+            # every program / shared library that links forwarding libraries, in the order of the script, and every copy / link
+            targets += [st['out'] for st in p.steps if st['kind'] == 'link' and 'fwd' in st]
+            targets += [st['out'] for st in p.steps if st['kind'] == 'copy']
             rcm, recs, mout = project.make(s.build, ['all'] + targets, stub_tools=True, envnames=envnames)
             if rcm != 0:
                 rep.fail('%s: make fails on the generated project: %s' % (backend, mout[-300:]),
@@ -548,5 +597,156 @@ def declared_vs_delivered(rep, rng, idx, backend, odd_names=False):
                     bad += rep.fail('%s backend: link options %r of %s are delivered as %r' % (backend, p.global_link + st['options'], st['name'], hit[0]),
                                     {'script': p.script(), 'delivered': hit[0]},
                                     classes=semicolon_class(backend, st['options'], hit[0], p.global_link))
+            if st['kind'] == 'link' and 'fwd' in st:
+                bad += check_forwarded(rep, backend, p, st, argvs)
+            if st['kind'] == 'compile' or (st['kind'] == 'link' and 'fwd' in st):
+                bad += check_path_words(rep, backend, p, st, argvs, s.src)
+            if st['kind'] == 'copy':
+                bad += check_copy(rep, backend, p, st, recs, s)
     rep.traces += 1
     return bad
+
+
+def check_forwarded(rep, backend, p, st, argvs):
+    """The linker process of ONE target against what the script declares for exactly that target: the link options of the
+    static libraries in the closure of its libs= (forwarded through libs= of static libraries) - every word of every such
+    library, no word of any other library, none more often than there are declared paths to its library - and the archive of
+    every library of the closure exactly once, no other."""
+    outs = (st['out'], './' + st['out'])
+    hit = [a for a in argvs if a and '-o' in a and a[-1] in outs]
+    paths = projgen.fwd_closure(p.fwd_libs, st['fwd'])
+    rep.case('sys:%s:fwd:%s:%r' % (backend, st['out'], st['fwd']), True)
+    rep.count('system:forwarded link options: consumer lists %d, closure %d' % (len(st['fwd']), len(paths)))
+    if len(hit) != 1:
+        return rep.fail('%s backend: the link step of %s is started %d times' % (backend, st['out'], len(hit)),
+                        {'script': p.script(), 'step': st, 'delivered': hit})
+    got = collections.Counter(w for w in hit[0] if w.startswith('-Wl,--defsym=fw'))
+    lo = collections.Counter(w for k in paths for w in p.fwd_libs[k]['words'])
+    hi = collections.Counter({w: paths[k] for k in paths for w in p.fwd_libs[k]['words']})
+    archives = sorted(w[2:] if w.startswith('./') else w for w in hit[0] if re.match(r'(\./)?libfw\d+\.a$', w))
+    want_archives = sorted(p.fwd_libs[k]['file'] for k in paths)
+    problems = []
+    if set(got) - set(lo):
+        problems.append('words of libraries the target does not link: %r' % sorted(set(got) - set(lo)))
+    if set(lo) - set(got):
+        problems.append('declared words missing: %r' % sorted(set(lo) - set(got)))
+    if any(got[w] > hi[w] for w in got if w in hi):
+        problems.append('words repeated: %r' % {w: got[w] for w in got if w in hi and got[w] > hi[w]})
+    if archives != want_archives:
+        problems.append('archives %r, declared closure %r' % (archives, want_archives))
+    if problems:
+        return rep.fail('%s backend: the linker of %s (libs= %r, declared closure %r) receives %r: %s' % (
+            backend, st['out'], [p.fwd_libs[k]['var'] for k in st['fwd']], sorted(p.fwd_libs[k]['var'] for k in paths), hit[0], '; '.join(problems)),
+            {'script': p.script(), 'step': st, 'forwarding_libraries': p.fwd_libs, 'delivered': hit[0], 'problems': problems},
+            classes=semicolon_class(backend, st['options'], hit[0], p.global_link))
+    return 0
+
+
+def check_path_words(rep, backend, p, st, argvs, srcdir):
+    """Flag words made of a flag and a PATH (include directory, library directory, string joined with a file): the process
+    receives the flag followed by the absolute name of that source-tree entry, whatever characters the name has."""
+    if st['kind'] == 'compile':
+        src = os.path.join(srcdir, st['source'])
+        hit = [a for a in argvs if src in a]
+        pairs = list(p.global_path_compile) + list(st.get('path_words') or [])
+    else:
+        outs = (st['out'], './' + st['out'])
+        hit = [a for a in argvs if a and '-o' in a and a[-1] in outs]
+        pairs = list(p.global_path_link) + list(st.get('path_words') or [])
+    if not pairs:
+        return 0
+    want = [flag + os.path.join(srcdir, rel) for flag, rel in pairs]
+    rep.case('sys:%s:pathflags:%s:%r' % (backend, st.get('source') or st['out'], pairs), True)
+    for c in set(''.join(rel for _, rel in pairs)) | set(os.path.basename(srcdir)):
+        if not c.isalnum() and c not in '/._':
+            rep.count('system:path-valued flag words with %r' % c)
+    if not hit:
+        if backend == 'make' and st['kind'] == 'compile':
+            return 0          # not among the goals Make was asked for
+        return rep.fail('%s backend: no process for %s' % (backend, st.get('source') or st['out']), {'script': p.script(), 'step': st})
+    missing = [w for w in want if w not in hit[0]]
+    if missing:
+        return rep.fail('%s backend: path-valued flag words %r of %s are delivered as %r' % (backend, missing, st.get('source') or st['out'], hit[0]),
+                        {'script': p.script(), 'srcdir': srcdir, 'declared_words': want, 'missing': missing, 'delivered': hit[0]},
+                        # (the words written behind the step's own options on its target-specific line belong to the line the open
+                        # finding target-flag-semicolon is about)
+                        # (the source directory arrives through $(srcdir), expanded after the line was cut: it is not text of the line)
+                        classes=semicolon_class(backend, list(st['options']) + [flag + '/SRCDIR/' + rel for flag, rel in st.get('path_words_after_options', [])],
+                                                [w.replace(srcdir, '/SRCDIR') for w in hit[0]], p.global_compile if st['kind'] == 'compile' else p.global_link))
+    return 0
+
+
+def check_copy(rep, backend, p, st, recs, s):
+    """copy_file in every mode: the copying tool (recorded) is handed the input and the output. For a symbolic link the
+    target is whatever the tool is handed, read FROM THE DIRECTORY OF THE LINK: it must name the input file - checked on the
+    words (path arithmetic) and with the real ln and readlink -f in a mirror of the two directories."""
+    import subprocess
+    import shutil
+    tool = {'copy': ['cp', '-f'], 'symlink': ['ln', '-sf'], 'hardlink': ['ln', '-f']}[st['mode']]
+    outs = (st['out'], './' + st['out'])
+    hit = [r for r in recs if r['argv'] and r['argv'][:len(tool)] == tool and r['argv'][-1] in outs]
+    inp = os.path.join(s.src, st['src'][4:]) if st['src'].startswith('src:') else os.path.join(s.build, st['src'])
+    rep.case('sys:%s:copy:%r' % (backend, st), st['mode'] == 'symlink')
+    rep.count('system:copy_file mode=%s input %s' % (st['mode'], 'source tree' if st['src'].startswith('src:') else 'generated'))
+    # open finding make-symlink-input-double-quoted: the class applies when the tool receives exactly the words sh makes of
+    # the intended word between two empty pairs of quotes
+    known = ()
+    if backend == 'make' and st['mode'] == 'symlink' and len(hit) == 1:
+        intended = inp if st['src'].startswith('src:') else os.path.relpath(inp, os.path.dirname(os.path.join(s.build, st['out'])))
+        pred = symlink_double_quote_predict(intended)
+        if pred is not None and pred != [intended] and hit[0]['argv'] == tool + pred + [hit[0]['argv'][-1]]:
+            known = ('make-symlink-input-double-quoted',)
+    if len(hit) != 1 or len(hit[0]['argv']) != len(tool) + 2:
+        return rep.fail('%s backend: copy_file(%r, %r, mode=%r) starts %r' % (backend, st['out'], st['src'], st['mode'], [r['argv'] for r in hit]),
+                        {'script': p.script(), 'step': st, 'delivered': [r['argv'] for r in hit]}, classes=known)
+    handed = hit[0]['argv'][-2]
+    cwd = hit[0]['cwd'] or s.build
+    linkdir = os.path.dirname(os.path.join(cwd, st['out']))
+    base = linkdir if st['mode'] == 'symlink' else cwd
+    denotes = os.path.normpath(os.path.join(base, handed))
+    why = None
+    if denotes != os.path.normpath(inp):
+        why = 'read from %s it names %r' % ('the directory of the link' if st['mode'] == 'symlink' else 'the working directory', denotes)
+    elif st['mode'] == 'symlink':
+        # the real tools on a mirror below a scratch root: same relative layout of input, working directory and link
+        root = common.scratch('lnk')
+        try:
+            m = lambda x: os.path.join(root, os.path.normpath(x).lstrip('/'))
+            os.makedirs(os.path.dirname(m(inp)), exist_ok=True)
+            os.makedirs(m(linkdir), exist_ok=True)
+            open(m(inp), 'w').close()
+            handed_m = m(handed) if os.path.isabs(handed) else handed
+            pr = subprocess.run(['ln', '-sf', handed_m, hit[0]['argv'][-1]], cwd=m(cwd), capture_output=True, text=True)
+            rl = subprocess.run(['readlink', '-f', os.path.join(m(cwd), st['out'])], capture_output=True, text=True)
+            if pr.returncode != 0 or rl.stdout.rstrip('\n') != os.path.realpath(m(inp)):
+                why = 'the real ln + readlink -f resolve the link to %r (%s)' % (rl.stdout.rstrip('\n').replace(root, ''), pr.stderr.strip()[:100])
+        finally:
+            shutil.rmtree(root, ignore_errors=True)
+    if why:
+        return rep.fail('%s backend: copy_file(%r, %r, mode=%r): the tool is handed %r for the input %r; %s' % (
+            backend, st['out'], st['src'], st['mode'], handed, inp.replace(s.root, ''), why),
+            {'script': p.script(), 'step': st, 'delivered': hit[0]['argv'], 'cwd': cwd.replace(s.root, ''), 'why': why}, classes=known)
+    return 0
+
+
+def symlink_explains(make_argv, declared_argv, subs):
+    """make_argv is the symbolic-link copy declared_argv (ln -sf <target> <link>, both in the canonical spelling of `subs`) with
+    the target the way the open finding make-symlink-input-double-quoted predicts - and that changes something"""
+    a, b = tuple(make_argv), tuple(declared_argv)
+    if a == b or a[:2] != ('ln', '-sf') or b[:2] != ('ln', '-sf') or len(b) != 4 or a[-1] != b[-1]:
+        return False
+    raw = b[2]
+    for real, short in subs:
+        raw = raw.replace(short, real)
+    pred = symlink_double_quote_predict(raw)
+    return pred is not None and tuple(canon(w, subs) for w in pred) == a[2:-1]
+
+
+def symlink_double_quote_predict(word):
+    """Open finding make-symlink-input-double-quoted: the Make recipe of a symbolic-link copy is `$(SYMLINK) '$1' '$@'` and the
+    call hands over $1 ALREADY shell-quoted whenever the word needs quoting (always for $(srcdir)/...), so sh reads
+    ''word'' - the word unquoted between two empty strings. Returns the words the real sh makes of that (None when it
+    cannot be predicted: a quote inside the word, sh fails)."""
+    if "'" in word:
+        return None
+    return shtools.dash_words("''%s''" % word)
